@@ -13,6 +13,8 @@ import (
 	"golang.org/x/tools/go/ssa"
 )
 
+var posHelperDepth int
+
 type posWrite struct {
 	off   int64           // constant byte offset in the base slice
 	width int             // bytes written; -1: as many as the source holds (copy) or the reader delivers (read)
@@ -20,6 +22,12 @@ type posWrite struct {
 	val   ssa.Value       // value written (put/store), source slice (copy), nil (read)
 	at    ssa.Instruction // the writing instruction
 	n     ssa.Value       // read: the count the Read returned
+	// a write made by a first-party helper that was handed the window (putHeader(p, T)): `at` is the
+	// call in this function; val is the call's argument where the helper wrote one of its
+	// parameters (conv: the basic kind it converted it to first, 0 for none); lenOf is the window
+	// when the helper wrote the length of the slice it was handed
+	conv  types.BasicKind
+	lenOf ssa.Value
 }
 
 var putWidths = map[string]int{
@@ -88,6 +96,37 @@ func posWrites(base ssa.Value) (ws []posWrite, exact bool) {
 					ws = append(ws, posWrite{off: off, width: -1, kind: "read", at: x, n: resultOf(x, 0)})
 					continue
 				}
+				// a first-party helper that lays fields out in the slice it is handed: its writes, at
+				// the window's offset, with its parameters replaced by this call's arguments
+				if cal := x.Call.StaticCallee(); cal != nil && IsFirstParty(cal) && cal.Blocks != nil && posHelperDepth < 2 && cal != x.Parent() {
+					posHelperDepth++
+					for j, a := range x.Call.Args {
+						if a != win || j >= len(cal.Params) {
+							continue
+						}
+						sub, subExact := posWrites(cal.Params[j])
+						if !subExact {
+							exact = false
+						}
+						rets := returnsOf(cal)
+						for _, w := range sub {
+							unconditional := !inCycle(w.at.Block())
+							for _, r := range rets {
+								if !dominatesInstr(w.at, r) {
+									unconditional = false
+								}
+							}
+							mw, ok := mapHelperWrite(w, cal, x, win)
+							if !unconditional || !ok {
+								exact = false
+								continue
+							}
+							mw.off += off
+							ws = append(ws, mw)
+						}
+					}
+					posHelperDepth--
+				}
 			}
 		}
 	}
@@ -141,7 +180,7 @@ func positionalFields(base ssa.Value, limit int64, before ssa.Instruction) (writ
 		}
 		switch w.kind {
 		case "put":
-			writes = append(writes, bufWrite{call: w.at, width: w.width, val: w.val})
+			writes = append(writes, bufWrite{call: w.at, width: w.width, val: w.val, conv: w.conv, lenOf: w.lenOf})
 			next += int64(w.width)
 		case "store":
 			// p[i], p[i+1], ... = a, b, ...: one field of as many bytes
@@ -258,4 +297,51 @@ func positionalArrayBody(fn *ssa.Function) (writes []bufWrite, body ssa.Value, o
 		}
 	}
 	return nil, nil, false
+}
+
+// mapHelperWrite: a positional write found in helper cal (through its slice parameter), seen from
+// the call site: constants stay, a parameter (possibly converted to a basic integer kind) becomes
+// the call's argument, len(<the slice parameter>) becomes "length of the window".
+func mapHelperWrite(w posWrite, cal *ssa.Function, call *ssa.Call, win ssa.Value) (posWrite, bool) {
+	out := w
+	out.at = call
+	if w.kind != "put" && w.kind != "store" {
+		return out, false // copies and reads inside a helper are not followed
+	}
+	v := w.val
+	var conv types.BasicKind
+	if cv, ok := v.(*ssa.Convert); ok {
+		if bt, isB := cv.Type().Underlying().(*types.Basic); isB {
+			conv = bt.Kind()
+			v = cv.X
+		}
+	}
+	if _, isC := v.(*ssa.Const); isC {
+		return out, true
+	}
+	if p, isP := v.(*ssa.Parameter); isP {
+		for j, q := range cal.Params {
+			if q == p && j < len(call.Call.Args) {
+				out.val = call.Call.Args[j]
+				out.conv = conv
+				return out, true
+			}
+		}
+		return out, false
+	}
+	if lc, isCall := v.(*ssa.Call); isCall {
+		if bi, isB := lc.Call.Value.(*ssa.Builtin); isB && bi.Name() == "len" {
+			if p, isP := lc.Call.Args[0].(*ssa.Parameter); isP {
+				for j, q := range cal.Params {
+					if q == p && j < len(call.Call.Args) && call.Call.Args[j] == win {
+						out.val = nil
+						out.lenOf = win
+						out.conv = conv
+						return out, true
+					}
+				}
+			}
+		}
+	}
+	return out, false
 }
